@@ -81,15 +81,22 @@ fn main() -> ExitCode {
 
     let mut first_arg = args[0].to_ascii_lowercase();
 
-    if first_arg.contains("version") || first_arg.starts_with("-v") {
+    // an option is an argument of its own that starts with `-` or `/` (`--help`, `-v`, `/?`); `help` and
+    // `version` are also accepted bare. Anything else is the query, whatever words it contains
+    // (`where name = 'help.txt'`, `from /usr/share/help`, the column `exif_version`)
+    let is_option =
+        |arg: &str| arg.starts_with('-') || arg.starts_with('/') || arg == "help" || arg == "version";
+
+    if is_option(&first_arg) && (first_arg.contains("version") || first_arg.starts_with("-v")) {
         short_usage_info(no_color);
         return ExitCode::SUCCESS;
     }
 
-    if first_arg.contains("help")
-        || first_arg.starts_with("-h")
-        || first_arg.starts_with("/?")
-        || first_arg.starts_with("/h")
+    if is_option(&first_arg)
+        && (first_arg.contains("help")
+            || first_arg.starts_with("-h")
+            || first_arg.starts_with("/?")
+            || first_arg.starts_with("/h"))
     {
         usage_info(config, default_config, no_color);
         return ExitCode::SUCCESS;
@@ -98,7 +105,9 @@ fn main() -> ExitCode {
     let mut interactive = false;
 
     loop {
-        if first_arg.contains("nocolor") || first_arg.contains("no-color") {
+        if is_option(&first_arg)
+            && (first_arg.contains("nocolor") || first_arg.contains("no-color"))
+        {
             no_color = true;
         } else if first_arg.starts_with("-i")
             || first_arg.starts_with("--i")
